@@ -36,7 +36,8 @@ VERIF_FAIL_PAT = re.compile(
     r"decreases not satisfied|failed to unwrap|unreachable|index out of bounds|cannot prove termination|"
     r"possible (truncation|overflow)|may be out of bounds|might be out of bounds|assertion failure|"
     r"function body check|could not prove|not satisfied|by\(compute\)|assert_by_compute|"
-    r"failed to simplify down to true|panic|loop must have a decreases|recommendation not met")
+    r"failed to simplify down to true|panic|loop must have a decreases|recommendation not met|"
+    r"unable to prove|post-condition|pre-condition")
 RLIMIT_PAT = re.compile(r"[Rr]esource limit|rlimit|timed? ?out|canceled|incomplete")
 
 
